@@ -1118,8 +1118,32 @@ def _replay_all(rep, pool, hists, quick, rnd):
     # phase A -- screening: several histories per interpreter (a fork costs far more than a history here)
     t0 = time.time()
     B = 8 if quick else 12
-    order = list(range(len(items)))
-    batches = [order[i:i + B] for i in range(0, len(order), B)]
+    # histories in one interpreter must not share reprs: classes and NewTypes carry their module's name, but two
+    # Enum members / validator closures of different modules print alike -- at most one history per such theme and batch
+    nb = (len(items) + B - 1) // B
+    batches = [[] for _ in range(nb)]
+    special = [i for i in range(len(items)) if items[i][1] in ("enum", "validator")]
+    plain = [i for i in range(len(items)) if items[i][1] not in ("enum", "validator")]
+    ptr = 0
+    for i in special:
+        key = (items[i][1], items[i][2])
+        for off in range(len(batches) + 1):
+            if off == len(batches):
+                batches.append([i])
+                break
+            b = batches[(ptr + off) % len(batches)]
+            if len(b) < B and all((items[j][1], items[j][2]) != key for j in b):
+                b.append(i)
+                ptr = (ptr + off + 1) % len(batches)
+                break
+    bi = 0
+    for i in plain:
+        while bi < len(batches) and len(batches[bi]) >= B:
+            bi += 1
+        if bi == len(batches):
+            batches.append([])
+        batches[bi].append(i)
+    batches = [b for b in batches if b]
     bres = pool.map(run_batch, [[items[i][0].job(items[i][1], items[i][2], 0) for i in b] for b in batches], chunksize=1)
     alone, batch_bad = set(), {}
     for bi, (b, rs) in enumerate(zip(batches, bres)):
@@ -1127,7 +1151,7 @@ def _replay_all(rep, pool, hists, quick, rnd):
             h, theme, cont = items[i]
             bad = judge.screen(h, theme, cont, res)
             if bad:
-                batch_bad[i] = (bi, bad)
+                batch_bad[i] = (bi, bad, res)
             if bad or h.needs_reuse or h.origin.startswith("TLC counter-example"):
                 alone.add(i)
     rep.add("interpreters_batched", len(batches))
@@ -1153,13 +1177,24 @@ def _replay_all(rep, pool, hists, quick, rnd):
                 nxt.append(i)
         pending = nxt
         rep.add("interpreters_alone", len(jobs))
-    for i, (bi, bad) in sorted(batch_bad.items()):
+    for i, (bi, bad, res) in sorted(batch_bad.items()):
         if i not in violated_alone:
-            # deviates only after the other histories of its batch: still a history of public-API operations
+            # deviates only after the other histories of its batch: still a history of public-API operations.  The usual
+            # cause: wrappers of EARLIER histories died and this history's wrappers took their addresses -- unprovoked.
             h, theme, cont = items[i]
             b = batches[bi]
-            rep.violation({"table": "unexplained (only after other histories in the same interpreter)",
-                           "history": "ops: " + json.dumps([_short(o) for o in h.ops[:bad[0] + 1]]), "theme": [theme, cont]},
+            k = bad[0]
+            ev = (res[k]["reuse"] or res[k].get("earlier", [])) if h.ops[k]["op"] in ("subhint", "theq", "leheld") else []
+            if ev:
+                key = {"table": f"TypeHint.{ev[0]['table']} (method_cached_arg_by_id, id-keyed)",
+                       "history": ("wrapper of an unhashable hint freed after its call, address reused by a later wrapper"
+                                   if not ev[0]["old_hashable"] else
+                                   "clear_caches() frees the cached wrappers, their addresses are reused by later wrappers")}
+            else:
+                key = {"table": "unexplained (only after other histories in the same interpreter)",
+                       "history": "ops: " + json.dumps([_short(o) for o in h.ops[:k + 1]]), "theme": [theme, cont]}
+            judge.stats["violating_answers"] += 1
+            rep.violation(key,
                           f"the answer of step {bad[0]} of the history below differs from a fresh interpreter only when it "
                           f"runs after {b.index(i)} other histories in one interpreter\n" + render(h.job(theme, cont)),
                           {"batch": [items[j][0].job(items[j][1], items[j][2], 0) for j in b[:b.index(i) + 1]],
@@ -1197,6 +1232,20 @@ def replay(rep, path):
     case = json.load(open(path))["case"]
     job = case["job"]
     print(render(job))
+    if "batch" in case:
+        # the deviation was seen only after other histories in the same interpreter: re-run that whole interpreter
+        oracle = FreshOracle(rep)
+        k = case["step"]
+        fj = {"ops": fresh_ops(job["ops"], k), "theme": job["theme"], "container": job["container"], "probes": job["probes"]}
+        oracle.resolve([fj])
+        fresh = oracle.get(fj)
+        res = fork_map(run_batch, [case["batch"]])[0][-1]
+        print(f"step {k}: fresh interpreter {fresh}; after the {len(case['batch']) - 1} earlier histories: {res[k]['ans']}; "
+              f"reuse detected: {bool(res[k]['reuse'])}")
+        if res[k]["ans"] != fresh:
+            rep.violations.append({"key": json.load(open(path))["key"], "what": "reproduced", "replay": path})
+            print("REPRODUCED: the answer after the history differs from the fresh interpreter")
+        return
     oracle = FreshOracle(rep)
     k = len(job["ops"]) - 1
     fj = {"ops": fresh_ops(job["ops"], k), "theme": job["theme"], "container": job["container"], "probes": job["probes"]}
